@@ -432,18 +432,26 @@ Proof. vm_compute. repeat split; reflexivity. Qed.
    print_json produces a report j without trap; j conforms to the schema regenerated from json-schema.md; and for BOTH renderings — the
    compact [serialise j] and the pretty [pretty j] — the UTF-8 bytes are accepted by the strict decoder and decode to the rendering, and the
    rendering is accepted by the RFC 8259 parser with insignificant whitespace and denotes exactly j (so the two outputs are valid UTF-8,
-   valid JSON and equal as values).  Both hypotheses are evaluated on every real state of the run.  Outside: possible_bit_flips[].confidence. *)
+   valid JSON and equal as values); j passes the self-consistency checker [consistent] (counts, frame numbers, the crashing_thread copy), the
+   module-offset checker [offsets_ok] when the frame modules are members of the module list, and the pointer-width walker [widths] when the registers
+   come from a register file of the source.  All hypotheses are evaluated on every real state of the run, all four checkers on every real output.
+   Outside: possible_bit_flips[].confidence; function_offset (c15_offsets: it needs the function base, which the document does not carry). *)
 Theorem c15_report_valid : forall p s, wf_state s = true -> state_scalar s = true ->
   exists j, json_of_state p s = Ret j /\ conforms DOC_SCHEMA j = true /\
     utf8_decode (length (utf8 (serialise j))) (utf8 (serialise j)) = Some (serialise j) /\
     parse_ws (serialise j) = Some j /\ parse (serialise j) = Some j /\
     utf8_decode (length (utf8 (pretty j))) (utf8 (pretty j)) = Some (pretty j) /\
-    parse_ws (pretty j) = Some j.
+    parse_ws (pretty j) = Some j /\
+    consistent j = true /\
+    (frames_in_modules s = true -> offsets_ok j = true) /\
+    (forall kind, regs_from_table kind (s_registers s) = true -> widths (s_width s) [] j = true).
 Proof.
   intros p s Hw Hs. exists (report_obj s). pose proof (report_scalar s Hs) as J.
   split; [exact (report_pure p s Hw)|]. split; [exact (report_conforms s Hw)|].
   split; [exact (report_bytes_utf8 _ J)|]. split; [apply compact_parse_ws|]. split; [apply serialise_parse|].
-  split; [exact (pretty_bytes_utf8 _ J)|apply pretty_parse_ws].
+  split; [exact (pretty_bytes_utf8 _ J)|]. split; [apply pretty_parse_ws|].
+  split; [exact (report_consistent s Hw)|]. split; [exact (report_offsets s Hw)|].
+  intros kind Hr. apply (report_widths s Hw). exact (proj1 (regs_from_table_ok kind _ Hr)).
 Qed.
 Print Assumptions c15_report_valid.
 
